@@ -445,6 +445,71 @@ AMScaleFailing(c, o) ==
     ELSE {"bad_record"}
 
 \* =================================================================================
+\* World: sessions of calls in ONE process
+\* =================================================================================
+\* The statement speaks about the two arrays of a call.  Hence the outcome of a call depends
+\* on the CONTENTS its arguments have at the time of the call and on nothing else: not on
+\* what was matched earlier in the process, not on which array OBJECTS carried the contents
+\* (an object seen before whose contents were changed since; a new object at the address of
+\* a dead one; the same object passed as both arguments), and not on what the caller did to
+\* results it was handed (they are the caller's).  A session is
+\*   [t, p        : element type and placement of all its arrays,
+\*    objs        : <<[kind, a]>>  the array objects alive at the start, kind =
+\*                  "rw" (writeable array), "roview" (read-only view of a writeable buffer of
+\*                  the caller), "memmap" (read-only memory map of a file that the caller also
+\*                  maps writeable),
+\*    steps       : <<[op, o, fn, src, a]>>]
+\*   op = "call"     fn(object o, second array): src = 0: the fresh array a;
+\*                                               src = j > 0: the object j itself (j = o: the
+\*                                               same object passed twice)
+\*        "mutate"   the caller overwrites the contents of object o with a (rw: in place;
+\*                   roview / memmap: through the writeable buffer / second map: MutateBase)
+\*        "replace"  object o is dropped (garbage collected) and a new object of the same kind
+\*                   with contents a takes its name (and quite possibly its address)
+\*        "scribble" the caller overwrites the index arrays returned by step o
+\* and an observation sequence has one entry per step ([fn |-> "step"] for caller steps; for a
+\* call vals = the contents of object o as read back by the harness just before the call).
+\* Invariant of the world (AMSessionFailing = {}): every call is accepted by the clauses for
+\* the contents at the time of the call - which, match being a function of the case, says
+\* "the outcome equals the outcome in a fresh world".
+AMWorldKinds == <<"rw", "roview", "memmap">>
+AMWorldTypes == <<"i8", "f8", "i2", "u4", "f4", "S", "U">>
+AMWApply(cs, s) == IF s.op \in {"mutate", "replace"} THEN [cs EXCEPT ![s.o] = s.a] ELSE cs
+RECURSIVE AMWBefore(_, _, _)
+\* the contents of all objects just before step k
+AMWBefore(cs0, steps, k) == IF k <= 1 THEN cs0 ELSE AMWApply(AMWBefore(cs0, steps, k - 1), steps[k - 1])
+AMWArg2(cs, s) == IF s.src = 0 THEN s.a ELSE cs[s.src]
+AMWContents0(sess) == [i \in DOMAIN sess.objs |-> sess.objs[i].a]
+
+AMSessionOK(sess) ==
+    /\ AMInSeq(sess.t, AMWorldTypes) /\ AMInSeq(sess.p, AMBasicPlaces)
+    /\ Len(sess.objs) >= 1
+    /\ \A i \in DOMAIN sess.objs : AMInSeq(sess.objs[i].kind, AMWorldKinds) /\ Len(sess.objs[i].a) >= 1
+    /\ \A k \in DOMAIN sess.steps :
+         LET s == sess.steps[k]  cs == AMWBefore(AMWContents0(sess), sess.steps, k)
+         IN CASE s.op = "call" -> /\ s.o \in DOMAIN sess.objs /\ s.src \in 0..Len(sess.objs) /\ IsMatchFn(s.fn)
+                                  /\ (s.src = 0 => Len(s.a) >= 1)
+                                  \* presorted=True is a promise of the caller: made only when it holds
+                                  /\ (s.fn \in {"match_presorted", "match_multi_presorted"} => AMNonDecreasing(cs[s.o]))
+              [] s.op \in {"mutate", "replace"} -> /\ s.o \in DOMAIN sess.objs
+                                                   /\ Len(s.a) >= 1
+                                                   \* a buffer / file keeps its size
+                                                   /\ (s.op = "mutate" => Len(s.a) = Len(cs[s.o]))
+              [] s.op = "scribble" -> s.o \in 1..(k - 1) /\ sess.steps[s.o].op = "call"
+              [] OTHER -> FALSE
+
+AMSessionFailing(sess, obs) ==
+    IF Len(obs) # Len(sess.steps) THEN {<<0, "step", "bad_record">>}
+    ELSE UNION {
+        LET s == sess.steps[k]
+            cs == AMWBefore(AMWContents0(sess), sess.steps, k)
+        IN IF s.op # "call" THEN (IF obs[k].fn = "step" THEN {} ELSE {<<k, "step", "bad_record">>})
+           \* the harness read back the contents the session prescribes (else the harness is at fault)
+           ELSE IF obs[k].fn # s.fn \/ obs[k].vals # cs[s.o] THEN {<<k, s.fn, "bad_record">>}
+           ELSE {<<k, s.fn, cl>> : cl \in AMMatchFailing(cs[s.o], AMWArg2(cs, s), obs[k])}
+        : k \in DOMAIN sess.steps}
+
+\* =================================================================================
 \* Implementation-shaped models (numpy_util.py, one operator per code step)
 \* =================================================================================
 
